@@ -32,6 +32,7 @@ structure StreamInv (cfg : Cfg) (s : StreamSt) : Prop where
   partsLL : cfg.variant ≠ .ll → allParts s = []
   sizeListed : ∀ g, .seg g ∈ s.segments → g.size ≤ cfg.segmentMaxSize
   sizeOpen : ∀ g, s.nextSegment = some g → g.size ≤ cfg.segmentMaxSize
+  tiled : ∀ o, s.nextSegment = some o → Tiled s.segments o.startDTS
 
 /-- the open part exists exactly when an open fMP4 segment exists -/
 def PartSync (cfg : Cfg) (s : StreamSt) : Prop :=
@@ -49,7 +50,7 @@ theorem StreamInv.congr {cfg : Cfg} {s s' : StreamSt} (h : StreamInv cfg s)
   all_goals first
     | exact h.gtr | exact h.gapsLL | exact h.msn | exact h.countEmpty | exact h.count | exact h.len
     | exact h.llNext | exact h.llReal | exact h.openId | exact h.closedEmpty | exact h.partId | exact h.partIds
-    | exact h.partsLL | exact h.sizeListed | exact h.sizeOpen
+    | exact h.partsLL | exact h.sizeListed | exact h.sizeOpen | exact h.tiled
 
 theorem PartSync.congr {cfg : Cfg} {s s' : StreamSt} (h : PartSync cfg s)
     (h2 : s'.nextSegment = s.nextSegment) (h3 : s'.nextPart = s.nextPart) : PartSync cfg s' := by
@@ -75,6 +76,7 @@ theorem StreamInv.firstSeg {cfg : Cfg} {s : StreamSt} (h : StreamInv cfg s) (hn 
     · exact h.partId p hp
     · cases hp; rfl
   · intro g hg; cases hg; exact Nat.zero_le _
+  · intro o ho; rw [h.closedEmpty hn]; trivial
 
 theorem PartSync.firstSeg {cfg : Cfg} {s : StreamSt} (h : PartSync cfg s) (d ntp : Int) :
     PartSync cfg (firstSegS cfg s d ntp) := by
@@ -118,6 +120,9 @@ theorem StreamInv.rotParts {cfg : Cfg} {s : StreamSt} {g : Seg} {p part : Part} 
   · intro g' hg'; cases hg'
     have := h.sizeOpen g hg
     simp only [partsSeg]; split <;> exact this
+  · intro o ho; cases ho
+    have := h.tiled g hg
+    simp only [partsSeg]; split <;> exact this
 
 theorem PartSync.rotParts_true {cfg : Cfg} {s : StreamSt} {g : Seg} {part : Part} (hv : cfg.variant ≠ .mpegts)
     (d pt : Int) : PartSync cfg (rotPartsS cfg s g part true d pt) := by
@@ -127,6 +132,7 @@ theorem PartSync.rotParts_true {cfg : Cfg} {s : StreamSt} {g : Seg} {part : Part
 
 theorem StreamInv.openUpd {cfg : Cfg} {s : StreamSt} {g g' : Seg} {np : Option Part} (h : StreamInv cfg s)
     (hg : s.nextSegment = some g) (hid : g'.id = g.id) (hparts : g'.parts = g.parts)
+    (hstart : g'.startDTS = g.startDTS)
     (hsize : g'.size ≤ cfg.segmentMaxSize) (hnp : ∀ p, np = some p → p.id = s.nextPartID) :
     StreamInv cfg { s with nextSegment := some g', nextPart := np } := by
   have hp : allParts { s with nextSegment := some g', nextPart := np } = allParts s := by
@@ -141,12 +147,13 @@ theorem StreamInv.openUpd {cfg : Cfg} {s : StreamSt} {g g' : Seg} {np : Option P
   · intro hc; cases hc
   · exact hnp
   · intro g'' hg''; cases hg''; exact hsize
+  · intro o ho; cases ho; rw [hstart]; exact h.tiled g hg
 
 theorem StreamInv.partWrite {cfg : Cfg} {s : StreamSt} {g : Seg} {p : Part} (h : StreamInv cfg s)
     (hg : s.nextSegment = some g) (hp : s.nextPart = some p) (size : Nat) (indep : Bool)
     (hsz : g.size + size ≤ cfg.segmentMaxSize) : StreamInv cfg (partWriteS s g p size indep) := by
   unfold partWriteS
-  refine h.openUpd hg rfl rfl hsz ?_
+  refine h.openUpd hg rfl rfl rfl hsz ?_
   intro p' hp'
   cases hp'
   have := h.partId p hp
@@ -162,7 +169,7 @@ theorem PartSync.partWrite {cfg : Cfg} {s : StreamSt} {g : Seg} {p : Part} (h : 
 /-! ### rotateSegments -/
 
 /-- everything the proofs need to know about the window right after the finished segment was appended -/
-structure AppFacts (cfg : Cfg) (s : StreamSt) (app : List Entry) : Prop where
+structure AppFacts (cfg : Cfg) (s : StreamSt) (d : Int) (app : List Entry) : Prop where
   gtr : GapsThenReals app
   gapsLL : cfg.variant ≠ .ll → ∀ e ∈ app, e.isGap = false
   msn : MsnFrom s.deleteCount app
@@ -172,12 +179,13 @@ structure AppFacts (cfg : Cfg) (s : StreamSt) (app : List Entry) : Prop where
   size : ∀ g, .seg g ∈ app → g.size ≤ cfg.segmentMaxSize
   llReal : cfg.variant = .ll → ∀ g, .seg g ∈ app → 7 ≤ g.id
   ne : app ≠ []
+  tiled : Tiled app d
 
 theorem flatMap_parts_gaps (d : Int) : (gaps d).flatMap Entry.parts = [] := by
   simp [gaps, llGapCount, List.replicate, Entry.parts]
 
 theorem appFacts {cfg : Cfg} {s : StreamSt} {g : Seg} (hc : CfgOK cfg) (h : StreamInv cfg s)
-    (hg : s.nextSegment = some g) (d : Int) : AppFacts cfg s (appended cfg s.segments { g with endDTS := d }) := by
+    (hg : s.nextSegment = some g) (d : Int) : AppFacts cfg s d (appended cfg s.segments { g with endDTS := d }) := by
   have hid := h.openId g hg
   have hsz := h.sizeOpen g hg
   by_cases hE : cfg.variant = .ll ∧ s.segments = []
@@ -188,7 +196,8 @@ theorem appFacts {cfg : Cfg} {s : StreamSt} {g : Seg} (hc : CfgOK cfg) (h : Stre
       simp [appended, hll, hempty]
     rw [happ]
     unfold CfgOK at hc; simp only [hll, if_true] at hc
-    refine ⟨(gapsThenReals_gaps _).append_seg _, fun hn => absurd hll hn, ?_, ?_, ?_, ?_, ?_, ?_, by simp⟩
+    refine ⟨(gapsThenReals_gaps _).append_seg _, fun hn => absurd hll hn, ?_, ?_, ?_, ?_, ?_, ?_, by simp,
+      (tiled_gaps _ g.startDTS).append_seg { g with endDTS := d } rfl⟩
     · rw [hce.1]; exact (msnFrom_gaps _).append_seg (by simp [length_gaps]; omega)
     · simp [length_gaps]; omega
     · simp [length_gaps]; omega
@@ -205,7 +214,8 @@ theorem appFacts {cfg : Cfg} {s : StreamSt} {g : Seg} (hc : CfgOK cfg) (h : Stre
       simpa [List.isEmpty_iff] using hE
     rw [happ]
     have hcnt := h.count hE
-    refine ⟨h.gtr.append_seg _, ?_, h.msn.append_seg (by simp; omega), by simp; omega, ?_, ?_, ?_, ?_, by simp⟩
+    refine ⟨h.gtr.append_seg _, ?_, h.msn.append_seg (by simp; omega), by simp; omega, ?_, ?_, ?_, ?_, by simp,
+      (h.tiled g hg).append_seg { g with endDTS := d } rfl⟩
     · intro hn e he
       simp at he
       rcases he with he | he
@@ -266,6 +276,7 @@ theorem StreamInv.rotSeg {cfg : Cfg} {s : StreamSt} {g : Seg} (hc : CfgOK cfg) (
       exact this.2
     · intro g' hg'; exact A.size g' (by simp [hg'])
     · intro g' hg'; cases hg'; exact Nat.zero_le _
+    · intro o ho; cases ho; exact A.tiled.tail
   · have hap : allParts (rotSegS cfg s g d ntp ip fc td) = app.flatMap Entry.parts := by
       simp [allParts, openParts, rotSegS, happ, hov]
     have hlen : app.length ≤ cfg.segmentCount := by unfold overfull at hov; omega
@@ -289,6 +300,7 @@ theorem StreamInv.rotSeg {cfg : Cfg} {s : StreamSt} {g : Seg} (hc : CfgOK cfg) (
     · intro hll; rw [A.parts]; exact h.partsLL hll
     · exact A.size
     · intro g' hg'; cases hg'; exact Nat.zero_le _
+    · intro o ho; cases ho; exact A.tiled
 
 theorem PartSync.rotSeg (cfg : Cfg) (s : StreamSt) (g : Seg) (d ntp : Int) (ip fc : Bool) (td : Int) :
     PartSync cfg (rotSegS cfg s g d ntp ip fc td) := by
